@@ -606,6 +606,15 @@ func (a *Attacker) hit(tr Targeter, atk *attack) *Result {
 	if err != nil {
 		return &res
 	}
+
+	if r.StatusCode == http.StatusSwitchingProtocols {
+		// The body of a 101 response is the connection itself, handed
+		// over for the protocol switched to: it has no end to read up to,
+		// and the client's timeout does not cover it any more. The
+		// exchange is over with the response; there is no body.
+		r.Body.Close()
+		r.Body = http.NoBody
+	}
 	defer r.Body.Close()
 
 	body := io.Reader(r.Body)
